@@ -81,6 +81,11 @@ type sim struct {
 	values   map[uint64][]uint64 // height -> values seen
 	commits  map[uint64]In       // height -> a ProcessSync input made from a correct validator's commit
 	retired  map[int]bool        // machines that ran far ahead of the target height
+	wal      [][]In              // per machine: the WAL the driver would hold (entries as replay inputs)
+	vcalls   []uint64            // per machine: Application.Value() calls so far
+	vcallsH  []uint64            // … at the start of the current height
+	replay   bool                // inside a WAL replay (no WAL writes, no ProcessStart after a commit)
+	restartP int                 // per mille: crash + restart of a random validator per scheduler step
 	start    uint64
 	label    string
 }
@@ -200,7 +205,14 @@ func (s *sim) do(m int, in In) {
 	commit := false
 	for _, a := range acts {
 		switch a.Kind {
+		case "W":
+			if !s.replay && a.Wal != nil {
+				s.wal[m] = append(s.wal[m], *a.Wal)
+			}
 		case "BP":
+			if a.VR == -1 {
+				s.vcalls[m]++ // validValue was nil: the value came from Application.Value()
+			}
 			s.addValue(a.H, a.Value)
 			s.broadcast(m, In{Kind: "prop", H: a.H, R: a.R, Sender: a.Sender, VR: a.VR, Value: a.Value})
 		case "BV":
@@ -211,6 +223,15 @@ func (s *sim) do(m int, in In) {
 			s.timeouts[m] = append(s.timeouts[m], In{Kind: "to", Step: a.Step, H: a.H, R: a.R})
 		case "C":
 			commit = true
+			// driver.commit: DeleteWALEntries(commit.Height)
+			keep := s.wal[m][:0:0]
+			for _, e := range s.wal[m] {
+				if e.H > a.H {
+					keep = append(keep, e)
+				}
+			}
+			s.wal[m] = keep
+			s.vcallsH[m] = s.vcalls[m]
 			if _, ok := s.commits[a.H]; !ok {
 				// what a block-sync would deliver for this height: the decided proposal and the
 				// precommits the committing validator has seen for it
@@ -231,7 +252,7 @@ func (s *sim) do(m int, in In) {
 		s.retired[m] = true
 		return
 	}
-	if commit && len(s.w.Viols) == 0 {
+	if commit && len(s.w.Viols) == 0 && !s.replay {
 		s.do(m, In{Kind: "start", R: 0})
 	}
 }
@@ -378,6 +399,38 @@ func (s *sim) byzAct() {
 	s.do(dst, In{Kind: k, H: h, R: rr, Sender: b, Value: val, Nil: isNil})
 }
 
+// restart crashes validator m and restarts it: fresh machine at its height, WAL replayed through
+// ProcessWAL in the order the store returns it (by height, then insertion), then listen's
+// ProcessStart(0). Timers of the old process are gone.
+func (s *sim) restart(m int) {
+	v := s.w.views[m]
+	if s.retired[m] || !v.started {
+		return
+	}
+	spec := s.sc.Nodes[m]
+	in := In{Kind: "restart", H: v.height, Value: spec.VBase + s.vcallsH[m]*spec.VStep}
+	s.w.Do(m, in)
+	s.sc.Events = append(s.sc.Events, Event{M: m, In: in})
+	s.vcalls[m] = s.vcallsH[m]
+	s.timeouts[m] = nil
+	entries := append([]In(nil), s.wal[m]...)
+	sort.SliceStable(entries, func(i, j int) bool { return entries[i].H < entries[j].H })
+	s.replay = true
+	for _, e := range entries {
+		if e.H < s.w.views[m].height { // driver.replay skips entries below the machine's height
+			continue
+		}
+		if len(s.w.Viols) > 0 {
+			break
+		}
+		s.do(m, e)
+	}
+	s.replay = false
+	if len(s.w.Viols) == 0 {
+		s.do(m, In{Kind: "start", R: 0})
+	}
+}
+
 func (s *sim) done() bool {
 	for m, v := range s.w.views {
 		if v.height < s.start+uint64(s.pf.heights) && !s.retired[m] {
@@ -391,6 +444,12 @@ func (s *sim) done() bool {
 func (s *sim) run() {
 	s.w = NewWorld(s.sc)
 	s.timeouts = make([][]In, len(s.sc.Nodes))
+	s.wal = make([][]In, len(s.sc.Nodes))
+	s.vcalls = make([]uint64, len(s.sc.Nodes))
+	s.vcallsH = make([]uint64, len(s.sc.Nodes))
+	if s.r.Chance(1, 3) {
+		s.restartP = lib.Pick(s.r, []int{3, 8, 20})
+	}
 	order := make([]int, len(s.sc.Nodes))
 	for i := range order {
 		order[i] = i
@@ -408,6 +467,10 @@ func (s *sim) run() {
 			if !s.pf.eagerTimeouts {
 				wT = 50 // nothing deliverable: time passes, timeouts expire
 			}
+		}
+		if s.restartP > 0 && s.r.Intn(1000) < s.restartP {
+			s.restart(s.r.Intn(len(s.sc.Nodes)))
+			continue
 		}
 		if s.pf.wSync > 0 && s.r.Intn(100) < s.pf.wSync {
 			// a lagging validator catches up through ProcessSync
